@@ -166,10 +166,22 @@ def property_on_real(nfa, e, sigma: Sequence[str], n: Optional[int] = None, ctx:
                 ctx.stat("long_shuffle_witness_unconfirmed")
         if confirmed and nfa.accepts_input(w) != verdict:
             brute = (w, verdict)
+        elif confirmed:
+            # the transition table of the compiled NFA is wrong on w (two independent oracles), but the
+            # library's own reader does not follow the table there: the reader is broken as well (C01).
+            # Still a failing input for C10 — the NFA as defined does not denote the expression.
+            brute = (w, verdict)
+            if ctx is not None:
+                ctx.stat("table_wrong_reader_disagrees_with_table")
         else:
-            raise InfraError(f"oracles disagree on {e!r}: derivatives say {exact}, not confirmed")
+            raise InfraError(f"oracles disagree on {e!r}: derivatives say {exact}, structural membership does not confirm")
     if brute is not None and exact is None:
-        raise InfraError(f"oracles disagree on {e!r}: brute force {brute}, derivatives find nothing")
+        # accepts_input answers wrongly although the compiled table denotes the expression exactly:
+        # on this tree the reader (C01) is what is broken; through the public API the property still
+        # fails on this input (a user asking `in` / accepts_input gets the wrong answer), so it is
+        # reported, with the cause named
+        if ctx is not None:
+            ctx.stat("reader_disagrees_with_correct_table")
     return brute
 
 
